@@ -26,7 +26,7 @@ Definition guard (x : input) : Prop := guard_e (effective x) = true.
 
 (* what the model predicts will be observed *)
 Definition run_trial (w : wire) (t : trial) : ident :=
-  sp_named (t_keys t) (t_wr t) (t_wa t) (if t_damaged t then damage w else w).
+  sp_receive string opens_named (t_hit t) (t_req t) (t_keys t) (t_wr t) (t_wa t) (if t_damaged t then damage w else w).
 Definition in_clear (w : wire) : list atom := derivable (fun _ => false) w.
 Definition bytes_of (x : input) (r : result) : list atom :=
   match r with
